@@ -82,7 +82,7 @@ theorem sum_flat (L : ℕ) (f : ℕ → ℝ) :
 /-- closed form of `ToS2Grid.shb[m, b, i]` at `i = l² + k` -/
 theorem shbTo_flat (lmax : ℕ) (n : ℕ → ℝ) (P : ℕ → ℕ → ℝ) (m b l k : ℕ) (hl : l ≤ lmax) (hk : k ≤ 2 * l) :
     shbTo lmax n P m b (l ^ 2 + k) = if m = lmax - l + k then n l * P b (l ^ 2 + k) else 0 := by
-  simp only [shbTo, sumRange_real]
+  simp only [shbTo, shbToWith, sumRange_real]
   rw [Finset.sum_eq_single l]
   · by_cases hm : m = lmax - l + k
     · rw [if_pos hm, Finset.sum_eq_single (l ^ 2 + k)]
@@ -102,6 +102,6 @@ theorem shbTo_flat (lmax : ℕ) (n : ℕ → ℝ) (P : ℕ → ℕ → ℝ) (m b
 
 theorem shbFrom_eq (lmax N M : ℕ) (n : ℕ → ℝ) (P : ℕ → ℕ → ℝ) (m b i : ℕ) :
     shbFrom lmax N M n P m b i = shbTo lmax n P m b i * qwFrom N M b := by
-  simp only [shbFrom, shbTo, sumRange_real, Finset.sum_mul]
+  simp only [shbFrom, shbFromWith, shbTo, shbToWith, sumRange_real, Finset.sum_mul]
 
 end E3nnVerif.S2Grid
